@@ -12,6 +12,7 @@ import (
 	"regexp"
 	"sort"
 	"sync"
+	"sync/atomic"
 	"time"
 
 	"github.com/caddyserver/caddy/v2"
@@ -46,6 +47,9 @@ type World struct {
 	Hooks   *HookState
 	// WorkDirAs: how the configuration spells work_dir ("" = WorkDir itself, a clean absolute path)
 	WorkDirAs string
+	// NoInitialPassWait: Provision returns as the validator's Provision does, without waiting for the first pass of the ticker
+	// goroutine (for checks about what holds at that very moment)
+	NoInitialPassWait bool
 }
 
 // ConfiguredWorkDir is the work_dir string of the configuration.
@@ -301,12 +305,17 @@ func (h *HookState) SetDirect(b bool) {
 // world
 // ---------------------------------------------------------------------------------------------
 
+var workDirNames atomic.Int64
+
 func New(cfg Cfg) (*World, error) {
 	sb, err := os.MkdirTemp("", "verif.world.")
 	if err != nil {
 		return nil, err
 	}
-	w := &World{Sandbox: sb, WorkDir: filepath.Join(sb, "work"), Cfg: cfg}
+	// how the operator named the directory is a dimension like any other: plain, or with characters that mean something to a
+	// shell pattern, a URL or a printf (a path is data wherever it is used)
+	names := []string{"work", "crl[prod]", "work", "w?rk d*r %s", "work", "crl{a,b}#1"}
+	w := &World{Sandbox: sb, WorkDir: filepath.Join(sb, names[int(workDirNames.Add(1))%len(names)]), Cfg: cfg}
 	if err := os.Mkdir(w.WorkDir, 0o755); err != nil {
 		return nil, err
 	}
@@ -393,6 +402,9 @@ func (w *World) Provision() error {
 		return err
 	}
 	w.V = v
+	if w.NoInitialPassWait {
+		return nil
+	}
 	if ch := v.VerifCRLChecker(); ch != nil && ch.VerifRepository() != nil {
 		// the ticker goroutine runs one (possibly skipped) pass immediately
 		if w.Hooks != nil {
@@ -538,7 +550,7 @@ func (w *World) SandboxOutside(allowed map[string]bool) []string {
 	var out []string
 	ents, _ := os.ReadDir(w.Sandbox)
 	for _, e := range ents {
-		if e.Name() == "work" || allowed[e.Name()] {
+		if e.Name() == filepath.Base(w.WorkDir) || allowed[e.Name()] {
 			continue
 		}
 		out = append(out, e.Name())
